@@ -97,6 +97,7 @@ def run(e: Engine, rep: Report):
     n15(e, rep)
     n16(e, rep)
     n17(e, rep)
+    n18(e, rep)
     rep.floor('N1', 9, 'relay implementations / set sites')
     rep.floor('N2', 12, 'client command sites')
 
@@ -2092,6 +2093,95 @@ def n15(e: Engine, rep: Report, rule: str = 'N15'):
                'no bytes-only / str-only method on reply.command',
                reason='nothing to check (producers: %d)' % len(producers),
                nontrivial=False)
+
+
+# -------------------------------------------------------------------- N18
+def n18(e: Engine, rep: Report, rule: str = 'N18'):
+    """SmtpRelayError.factory(reply) makes a relay error that carries the
+    reply - the edges copy that reply into their own answer.  A reply the
+    peer sent is handed to it only where is_error() has said so on this
+    path: a 2xx / 3xx reply wrapped in a relay error comes out of the edge
+    as `250 ...` for a message that was not relayed."""
+    rep.rule(rule, 'a reply received from the peer is made into a relay '
+             'error (SmtpRelayError.factory) only under its own is_error(): '
+             'never a reply whose class has not been looked at (judged on '
+             'the inlined _run of the SMTP / LMTP relay clients; sites whose '
+             'argument cannot be traced to a client command are not judged)')
+    n = 0
+    for cq in e.concrete_classes('slimta.relay.smtp.client.SmtpRelayClient'):
+        short = cq.rpartition('.')[2]
+        ctx = e.method_ctx(cq, '_run')
+        g = e.build(ctx, raises=lambda b, nn, r: set(),
+                    inline=e.inline_same_self(deny=['poll']), max_depth=8)
+        fx = e.facts(g)
+        for fr in {x.frame for x in g.nodes}:
+            rep.functions.add(fr.ctx.func.qname)
+        for nd in g.calls():
+            fn = nd.ast.func
+            if not (isinstance(fn, ast.Attribute) and fn.attr == 'factory'
+                    and nd.ast.args and
+                    'RelayError' in ast.unparse(fn.value)):
+                continue
+            a = nd.ast.args[0]
+            if not isinstance(a, ast.Name):
+                continue
+            n += 1
+            st = fx.at(nd) or frozenset()
+            try:
+                q = canon(a, nd.frame)
+            except Exception:
+                q = path_of(a, nd.frame)
+            guarded = holds(st, (True, q + '.is_error()')) or any(
+                pol and k.endswith('.is_error()') and
+                k[:-len('.is_error()')] in (q, path_of(a, nd.frame))
+                for pol, k in st)
+            src, sfr = common.origin(g, a, nd.frame)
+            def is_peer(x):
+                return isinstance(x, ast.Call) and \
+                    isinstance(x.func, ast.Attribute) and \
+                    'client' in ast.unparse(x.func.value)
+            peer = is_peer(src)
+            if not peer and isinstance(src, ast.Name):
+                # a local bound more than once (`data = None` first): what
+                # reaches this call
+                for d in common.reaching_defs(g, nd, path_of(src, sfr)):
+                    if d is not None and isinstance(d.ast, ast.Assign) and \
+                            len(d.ast.targets) == 1 and \
+                            isinstance(d.ast.targets[0], ast.Name):
+                        v2, _f2 = common.origin(g, d.ast.value, d.frame)
+                        if is_peer(v2):
+                            peer = True
+                            src = v2
+            if not peer:
+                continue                 # built here / a loop element: N2, N4
+            rep.evaluations += 1
+            where = '%s[%s]' % (nd.frame.ctx.func.qname, short)
+            rep.check(guarded, rule, where, 'relay error made from `%s`'
+                      % a.id,
+                      'the reply to `%s` is made into a relay error although '
+                      'is_error() has not been established for it on this '
+                      'path: when the peer answered 2xx / 3xx the failure '
+                      'carries a positive reply, which the edge hands on as '
+                      'its own answer - the sender is told `250` for a '
+                      'message that was not relayed' % ' '.join(
+                          ast.unparse(src).split())[:40], loc=nd.loc(),
+                      reason='under is_error()')
+    if n < 10:
+        rep.error('anchor vanished: SmtpRelayError.factory call sites below '
+                  '_run (%d < 10)' % n)
+
+
+def _error_by_construction(e: Engine, d: Node) -> bool:
+    """`x = Reply('5xx' / '4xx', ...)` or the value of _get_error_reply"""
+    v = d.ast.value
+    if isinstance(v, ast.Call) and ast.unparse(v.func).endswith('Reply') \
+            and v.args and isinstance(v.args[0], ast.Constant) and \
+            str(v.args[0].value)[:1] in ('4', '5'):
+        return True
+    if isinstance(v, ast.Call) and isinstance(v.func, ast.Attribute) and \
+            v.func.attr == '_get_error_reply':
+        return True
+    return False
 
 
 # -------------------------------------------------------------------- N17
